@@ -106,6 +106,10 @@ func (state *State) AddBlock(hash *bitcoin.Hash32, block wire.Block) bool {
 
 	for _, request := range state.blocksRequested {
 		if request.hash.Equal(hash) {
+			if request.block != nil {
+				// Block was already received. Replace it rather than counting its size twice.
+				state.pendingBlockSize -= request.size
+			}
 			request.block = block
 			request.size = block.SerializeSize()
 			state.pendingBlockSize += request.size
@@ -216,6 +220,7 @@ func (state *State) ClearBlockRequests(ctx context.Context) {
 		len(state.blocksRequested), len(state.blocksToRequest))
 	state.blocksRequested = nil
 	state.blocksToRequest = nil
+	state.pendingBlockSize = 0
 }
 
 func (state *State) ClearBlockRequestsAfter(ctx context.Context, hash bitcoin.Hash32) {
@@ -228,6 +233,11 @@ func (state *State) ClearBlockRequestsAfter(ctx context.Context, hash bitcoin.Ha
 		if requested.hash.Equal(&hash) {
 			if len(state.blocksRequested) > i {
 				logger.Info(ctx, "Removing %d requested blocks", len(state.blocksRequested)-i-1)
+				for _, removed := range state.blocksRequested[i+1:] {
+					if removed.block != nil {
+						state.pendingBlockSize -= removed.size
+					}
+				}
 				state.blocksRequested = state.blocksRequested[:i+1]
 			} else {
 				logger.Info(ctx, "Removing %d requested blocks", 0)
